@@ -3,7 +3,11 @@ P — translator for the numpy array pipelines.
 
 The functions that turn coordinate arrays into cell polygons are short straight-line numpy programs
 (`numpy.stack`, `expand_dims`, `broadcast_to`, `transpose`, subscripts, `reshape`, `concatenate`,
-`+ - /`).  On every run this module takes their SOURCE TEXT from the working tree (the classes are
+`+ - /`; for the derived 2-D bounds and the Arakawa C masks also `isnan`, `pad`, `& |`, assignment through a
+boolean mask, `nanmean`, `.any(axis)`, static comprehensions over `itertools.product` of literal lists,
+`functools.reduce(operator.or_, …)`, calls of module-level helpers with literal arguments, which are inlined;
+for `masking.blur_mask` the `nditer` / `fromiter` idiom — a generator of one value per multi-index of an array,
+`arr[index] or numpy.any(padded[tuple(slice(i, i + extent) for i in index)])` — which becomes `NpExpr.windowAny`).  On every run this module takes their SOURCE TEXT from the working tree (the classes are
 imported from it, `inspect.getsource`), parses it with `ast`, executes the body symbolically
 (local assignments are inlined) and re-emits each as one term of the expression language of
 `lean/EmsModel/Core/NpExpr.lean`, in `lean/EmsModel/Gen/Pipelines.lean`.  The theorems
@@ -38,12 +42,25 @@ OUT = VERIF / 'lean' / 'EmsModel' / 'Gen' / 'Pipelines.lean'
 #   kind 'polygons' : the result is `utils.make_polygons_with_holes(points)`; the term is `points`
 #   kind 'dataarray': the result is `xarray.DataArray(array, dims=…)`;        the term is `array`
 #   kind 'array'    : the result is an array (possibly inside `cast(numpy.ndarray, …)`)
+#   kind 'dataset:<name>': the result is `xarray.Dataset(data_vars={… '<name>': xarray.DataArray(array, …) …})`
+# a class of `None` is a module-level function; the optional sixth entry overrides the input table
 TARGETS = [
     ('cf1dPolygonPoints', 'emsarray.conventions.grid', 'CFGrid1D', '_make_polygons', 'polygons'),
     ('cf2dPolygonPoints', 'emsarray.conventions.grid', 'CFGrid2D', '_make_polygons', 'polygons'),
     ('arakawaPolygonPoints', 'emsarray.conventions.arakawa_c', 'ArakawaC', '_make_polygons', 'polygons'),
     ('cf1dMidBounds', 'emsarray.conventions.grid', 'CFGrid1DTopology', '_get_or_make_bounds', 'dataarray'),
     ('cf1dFaceCentres', 'emsarray.conventions.grid', 'CFGrid1D', 'face_centres', 'array'),
+    ('cf2dDerivedBounds', 'emsarray.conventions.grid', 'CFGrid2DTopology', '_get_or_make_bounds', 'dataarray',
+     {'arrays': {('coordinate', 'values'): ('values', 2, None, 'float')},
+      'tuples': {('self', 'shape'): ('y_size', 'x_size')}}),
+    ('cMaskLeft', 'emsarray.conventions.arakawa_c', None, 'c_mask_from_centres', 'dataset:left_mask',
+     {'arrays': {('face_mask',): ('face_mask', 2, None, 'bool')}}),
+    ('cMaskBack', 'emsarray.conventions.arakawa_c', None, 'c_mask_from_centres', 'dataset:back_mask',
+     {'arrays': {('face_mask',): ('face_mask', 2, None, 'bool')}}),
+    ('cMaskNode', 'emsarray.conventions.arakawa_c', None, 'c_mask_from_centres', 'dataset:node_mask',
+     {'arrays': {('face_mask',): ('face_mask', 2, None, 'bool')}}),
+    ('blurMask', 'emsarray.masking', None, 'blur_mask', 'array',
+     {'arrays': {('arr',): ('arr', 2, None, 'bool')}, 'scalars': {('size',): 'size'}}),
 ]
 
 # attribute chains that are INPUTS of the pipelines: name of the model variable, and its rank.
@@ -61,17 +78,29 @@ INPUT_ARRAYS = {
 INPUT_TUPLES = {
     ('self', 'topology', 'shape'): ('y_size', 'x_size'),
 }
+# module-level helpers whose calls are inlined (the arguments are bound to the parameters, the body is run):
+# attribute chain of the callee -> (module, function)
+INLINE_FUNCTIONS = {
+    ('masking', 'smear_mask'): ('emsarray.masking', 'smear_mask'),
+}
 
 
 # --------------------------------------------------------------------------------------------------
 # symbolic values
 
+_OIDS = iter(range(1, 10 ** 9))
+
+
 class Arr:
     """an NpExpr term (rendered Lean text, as a nested tuple) with the rank when it is known"""
-    def __init__(self, term, rank=None, dims=None):
+    def __init__(self, term, rank=None, dims=None, dtype=None, oid=None):
         self.term = term          # ('var', name) | ('stack', [terms], axis) | …
         self.rank = rank
         self.dims = dims          # symbolic sizes of a 1-D input, for meshgrid
+        self.dtype = dtype        # 'bool' | 'float' | None (not tracked)
+        # identity of the numpy object the value lives in: views (subscripts, reshape, transpose, …) share the
+        # identity of their operand, everything else is a new object.  Needed for `x[mask] = v` only.
+        self.oid = next(_OIDS) if oid is None else oid
 
 
 class Tup:
@@ -93,6 +122,97 @@ class Num:
     """a numeric literal that is not an int"""
     def __init__(self, text):
         self.text = text
+
+
+class Bool:
+    def __init__(self, b):
+        self.b = b
+
+
+class Nan:
+    """`numpy.nan`"""
+
+
+class Dict:
+    def __init__(self, items):
+        self.items = dict(items)
+
+
+class Scal:
+    """a non-negative integer expression over the integer parameters: ('lit', n) | ('sym', name) | ('add', a, b) | ('mul', a, b)"""
+    def __init__(self, term):
+        self.term = term
+
+
+# the pieces of the idiom `numpy.fromiter((f(index) for index in <C-order multi-indexes of arr>), count=arr.size, …)`
+class NdIter:
+    """`numpy.nditer(arr, ['multi_index'])`"""
+    def __init__(self, arr):
+        self.arr = arr
+
+
+class MultiIndexOf:
+    """`it.multi_index`"""
+    def __init__(self, it):
+        self.it = it
+
+
+class IndexStream:
+    """`(it.multi_index for _ in it)`: the multi-indexes of `arr`, in C order"""
+    def __init__(self, arr):
+        self.arr = arr
+
+
+class IndexVar:
+    """the loop variable of a generator over an IndexStream: one multi-index of `arr`"""
+    def __init__(self, arr):
+        self.arr = arr
+
+
+class IndexComp:
+    """the loop variable of a generator over an IndexVar: one component of the multi-index"""
+    def __init__(self, iv):
+        self.iv = iv
+
+
+class IdxPlus:
+    def __init__(self, comp, scal):
+        self.comp, self.scal = comp, scal
+
+
+class WindowSlice:
+    """`slice(i, i + extent)`"""
+    def __init__(self, comp, scal):
+        self.comp, self.scal = comp, scal
+
+
+class WindowTuple:
+    """`tuple(slice(i, i + extent) for i in index)`"""
+    def __init__(self, iv, scal):
+        self.iv, self.scal = iv, scal
+
+
+class Elem:
+    """a scalar computed from the loop index: ('at', arr) | ('window', padded, scal) | ('anywin', padded, scal) |
+    ('windowAny', arr, padded, scal)"""
+    def __init__(self, iv, what):
+        self.iv, self.what = iv, what
+
+
+class ValueStream:
+    """`(elem for index in indexes)`: one value per multi-index of `arr`, in C order; `term` is the array of them"""
+    def __init__(self, arr, term):
+        self.arr, self.term = arr, term
+
+
+class SizeOf:
+    def __init__(self, arr):
+        self.arr = arr
+
+
+class DtypeOf:
+    def __init__(self, arr):
+        self.arr = arr
 
 
 class Chain:
@@ -128,8 +248,13 @@ def snippet(node) -> str:
 
 
 class Translator:
-    def __init__(self, fn_name: str):
+    def __init__(self, fn_name: str, inputs: dict | None = None):
         self.fn_name = fn_name
+        inputs = inputs or {}
+        self.input_arrays = {**INPUT_ARRAYS, **inputs.get('arrays', {})}
+        self.input_tuples = {**INPUT_TUPLES, **inputs.get('tuples', {})}
+        self.input_scalars = dict(inputs.get('scalars', {}))
+        self.depth = 0
         self.env: dict = {}
         self.complaints: list[str] = []
         self.asserts: list = []       # (Arr | Bad, dims list | None)
@@ -205,6 +330,8 @@ class Translator:
         return m(node)
 
     def e_Constant(self, node):
+        if type(node.value) is bool:
+            return Bool(node.value)
         if type(node.value) is int:
             return Int(node.value)
         if type(node.value) is float:
@@ -222,11 +349,15 @@ class Translator:
 
     def chain(self, parts, node):
         parts = tuple(parts)
-        if parts in INPUT_ARRAYS:
-            name, rank, dims = INPUT_ARRAYS[parts]
-            return Arr(('var', name), rank, dims)
-        if parts in INPUT_TUPLES:
-            return Tup([Sym(n) for n in INPUT_TUPLES[parts]])
+        if parts in self.input_arrays:
+            name, rank, dims, *rest = self.input_arrays[parts]
+            return Arr(('var', name), rank, dims, dtype=rest[0] if rest else None, oid='input:' + name)
+        if parts in self.input_tuples:
+            return Tup([Sym(n) for n in self.input_tuples[parts]])
+        if parts in self.input_scalars:
+            return Scal(('sym', self.input_scalars[parts]))
+        if parts in (('numpy', 'nan'), ('np', 'nan'), ('numpy', 'NaN'), ('numpy', 'NAN')):
+            return Nan()
         return Chain(parts)
 
     def e_Attribute(self, node):
@@ -235,6 +366,12 @@ class Translator:
             return self.chain(base.parts + (node.attr,), node)
         if isinstance(base, Arr) and node.attr == 'shape':
             return ShapeOf(base)
+        if isinstance(base, Arr) and node.attr == 'size':
+            return SizeOf(base)
+        if isinstance(base, Arr) and node.attr == 'dtype':
+            return DtypeOf(base)
+        if isinstance(base, NdIter) and node.attr == 'multi_index':
+            return MultiIndexOf(base)
         return Bad(snippet(node))
 
     def e_Tuple(self, node):
@@ -249,7 +386,118 @@ class Translator:
             return Arr(('add' if isinstance(node.op, ast.Add) else 'sub', left.term, right.term), rank)
         if isinstance(node.op, ast.Div) and isinstance(left, Arr) and isinstance(right, Int) and right.n != 0:
             return Arr(('divConst', left.term, right.n), left.rank)
+        if isinstance(node.op, (ast.Add, ast.Mult)) and (isinstance(left, Scal) or isinstance(right, Scal)):
+            a, b = self.scal_of(left), self.scal_of(right)
+            if a is not None and b is not None:
+                return Scal(('add' if isinstance(node.op, ast.Add) else 'mul', a.term, b.term))
+        if isinstance(node.op, ast.Add) and isinstance(left, IndexComp) and self.scal_of(right) is not None:
+            return IdxPlus(left, self.scal_of(right))
+        if isinstance(node.op, ast.Add) and isinstance(left, IdxPlus) and self.scal_of(right) is not None:
+            return IdxPlus(left.comp, Scal(('add', left.scal.term, self.scal_of(right).term)))
+        if isinstance(node.op, (ast.BitAnd, ast.BitOr)) and isinstance(left, Arr) and isinstance(right, Arr):
+            return self.bool_op('band' if isinstance(node.op, ast.BitAnd) else 'bor', left, right, node)
         return Bad(snippet(node))
+
+    def scal_of(self, v):
+        if isinstance(v, Scal):
+            return v
+        if isinstance(v, Int) and v.n >= 0:
+            return Scal(('lit', v.n))
+        return None
+
+    def e_BoolOp(self, node):
+        # `arr[index] or numpy.any(padded[window around index])`, for the loop index of a generator over the
+        # multi-indexes of `arr` (either order: `or` of two booleans)
+        if isinstance(node.op, ast.Or) and len(node.values) == 2:
+            a, b = (self.expr(v) for v in node.values)
+            if isinstance(a, Elem) and isinstance(b, Elem) and a.iv is b.iv:
+                if a.what[0] == 'anywin':
+                    a, b = b, a
+                if a.what[0] == 'at' and b.what[0] == 'anywin' and a.what[1].oid == a.iv.arr.oid:
+                    return Elem(a.iv, ('windowAny', a.what[1], b.what[1], b.what[2]))
+        return Bad(snippet(node))
+
+    def bool_op(self, op: str, left: Arr, right: Arr, node):
+        # `&` / `|` are logical only on boolean operands (on integers they are bitwise, on floats a TypeError)
+        if left.dtype != 'bool' or right.dtype != 'bool':
+            return Bad(snippet(node) + '  -- operands of & / | not known to be boolean arrays')
+        rank = left.rank if left.rank == right.rank else None
+        return Arr((op, left.term, right.term), rank, dtype='bool')
+
+    def e_IfExp(self, node):
+        test = self.expr(node.test)
+        if isinstance(test, Bool):
+            return self.expr(node.body if test.b else node.orelse)
+        return Bad(snippet(node))
+
+    def e_Dict(self, node):
+        items = {}
+        for k, v in zip(node.keys, node.values):
+            if not (isinstance(k, ast.Constant) and isinstance(k.value, str)):
+                return Bad(snippet(node))
+            items[k.value] = self.expr(v)
+        return Dict(items)
+
+    def static_items(self, v):
+        """the items of a statically known sequence, or None"""
+        return list(v.items) if isinstance(v, Tup) else None
+
+    def comprehension(self, node):
+        """`[elt for target in iterable]` / the generator form, over a statically known iterable: unrolled"""
+        if len(node.generators) != 1:
+            return Bad(snippet(node))
+        gen = node.generators[0]
+        if gen.ifs or gen.is_async:
+            return Bad(snippet(node))
+        it = self.expr(gen.iter)
+        if isinstance(it, (NdIter, IndexStream, IndexVar)):
+            return self.stream_comprehension(it, gen, node)
+        items = self.static_items(it)
+        if items is None:
+            return Bad(snippet(node) + '  -- the iterable is not statically known')
+        saved = dict(self.env)
+        out = []
+        try:
+            for it in items:
+                if not self.bind(gen.target, it, node):
+                    return Bad(snippet(node))
+                out.append(self.expr(node.elt))
+        finally:
+            self.env = saved
+        return Tup(out)
+
+    e_ListComp = comprehension
+    e_GeneratorExp = comprehension
+
+    def stream_comprehension(self, it, gen, node):
+        """the generator expressions of the `nditer` / `fromiter` idiom: a value per multi-index of an array"""
+        if not isinstance(node, ast.GeneratorExp) or not isinstance(gen.target, ast.Name):
+            return Bad(snippet(node))
+        saved = dict(self.env)
+        try:
+            if isinstance(it, NdIter):
+                # (it.multi_index for _ in it): the multi-indexes of the array, in the order nditer visits them
+                self.env[gen.target.id] = Bad('the nditer loop variable')
+                v = self.expr(node.elt)
+                if isinstance(v, MultiIndexOf) and v.it is it:
+                    return IndexStream(it.arr)
+                return Bad(snippet(node))
+            if isinstance(it, IndexStream):
+                iv = IndexVar(it.arr)
+                self.env[gen.target.id] = iv
+                v = self.expr(node.elt)
+                if isinstance(v, Elem) and v.iv is iv and v.what[0] == 'windowAny':
+                    _, a, p, scal = v.what
+                    return ValueStream(it.arr, ('windowAny', a.term, p.term, scal.term))
+                return Bad(snippet(node) + '  -- value per index not understood')
+            comp = IndexComp(it)
+            self.env[gen.target.id] = comp
+            v = self.expr(node.elt)
+            if isinstance(v, WindowSlice) and v.comp is comp:
+                return WindowTuple(it, v.scal)
+            return Bad(snippet(node))
+        finally:
+            self.env = saved
 
     def e_Subscript(self, node):
         base = self.expr(node.value)
@@ -260,6 +508,12 @@ class Translator:
             return Bad(snippet(node))
         if not isinstance(base, Arr):
             return Bad(snippet(node))
+        if isinstance(node.slice, (ast.Name, ast.Call)):
+            ix = self.expr(node.slice)
+            if isinstance(ix, IndexVar):
+                return Elem(ix, ('at', base))
+            if isinstance(ix, WindowTuple):
+                return Elem(ix.iv, ('window', base, ix.scal))
         elts = node.slice.elts if isinstance(node.slice, ast.Tuple) else [node.slice]
         terms = []
         dropped = 0
@@ -284,7 +538,7 @@ class Translator:
                 terms.append(('idx', v) if v >= 0 else ('idxEnd', -v))
                 dropped += 1
         rank = None if base.rank is None else base.rank - dropped
-        return Arr(('slice', base.term, terms), rank)
+        return Arr(('slice', base.term, terms), rank, dtype=base.dtype, oid=base.oid)
 
     def kwargs(self, node, names):
         """positional + keyword arguments by name; None if something unexpected is passed"""
@@ -318,6 +572,13 @@ class Translator:
         return Bad(snippet(node))
 
     def method(self, base: Arr, name: str, node):
+        if name == 'reshape' and not node.keywords and len(node.args) == 1 and getattr(base, 'unflat', None):
+            # numpy.fromiter(<a value per C-order multi-index of arr>, count=arr.size).reshape(arr.shape)
+            whole, arr = base.unflat
+            shape = self.expr(node.args[0])
+            if isinstance(shape, ShapeOf) and shape.arr.oid == arr.oid:
+                return whole
+            return Bad(snippet(node))
         if name == 'reshape' and not node.keywords and node.args:
             if len(node.args) == 1:
                 dims = self.dims_of(node.args[0])
@@ -325,12 +586,44 @@ class Translator:
                 dims = self.dims_of(ast.Tuple(elts=list(node.args), ctx=ast.Load()))
             if dims is None or sum(1 for d in dims if d == ('infer',)) > 1:
                 return Bad(snippet(node))
-            return Arr(('reshape', base.term, dims), len(dims))
+            return Arr(('reshape', base.term, dims), len(dims), dtype=base.dtype, oid=base.oid)
         if name in ('flatten', 'ravel') and not node.args and not node.keywords:
-            return Arr(('reshape', base.term, [('infer',)]), 1)
+            return Arr(('reshape', base.term, [('infer',)]), 1, dtype=base.dtype,
+                       oid=base.oid if name == 'ravel' else None)
         if name == 'copy' and not node.args and not node.keywords:
-            return base
+            return Arr(base.term, base.rank, base.dims, dtype=base.dtype)      # the same value in a new object
+        if name == 'any':
+            kw = self.kwargs(node, ['axis'])
+            if kw is None or 'axis' not in kw:
+                return Bad(snippet(node))       # a reduction over all axes is not modelled
+            axis = self.axis_of(kw['axis'])
+            if axis is None:
+                return Bad(snippet(node))
+            return Arr(('anyAxis', base.term, axis), None if base.rank is None else base.rank - 1, dtype='bool')
         return Bad(snippet(node))
+
+    def pad_widths(self, v, rank):
+        """`((b, a), …)`, one pair per axis (the other forms numpy accepts are not modelled)"""
+        if not isinstance(v, Tup) or not v.items:
+            return None
+        out = []
+        for it in v.items:
+            if not (isinstance(it, Tup) and len(it.items) == 2 and all(isinstance(x, Int) and x.n >= 0 for x in it.items)):
+                return None
+            out.append((it.items[0].n, it.items[1].n))
+        if rank is not None and len(out) != rank:
+            return None
+        return out
+
+    def fill_of(self, v, dtype):
+        """a scalar stored into an array of `dtype`: ('some', n) | ('none',) | None when not modelled"""
+        if isinstance(v, Bool):
+            return ('some', 1 if v.b else 0)
+        if isinstance(v, Int) and (dtype != 'bool' or v.n in (0, 1)):
+            return ('some', v.n)
+        if isinstance(v, Nan) and dtype == 'float':
+            return ('none',)
+        return None
 
     def function(self, parts, node):
         name = '.'.join(parts)
@@ -343,7 +636,8 @@ class Translator:
                 return Bad(snippet(node))
             items = [self.as_arr(self.expr(e), e) for e in kw['arrays'].elts]
             rank = items[0].rank
-            return Arr(('stack', [i.term for i in items], axis), None if rank is None else rank + 1)
+            dtype = items[0].dtype if all(i.dtype == items[0].dtype for i in items) else None
+            return Arr(('stack', [i.term for i in items], axis), None if rank is None else rank + 1, dtype=dtype)
         if name in ('numpy.expand_dims', 'np.expand_dims'):
             kw = self.kwargs(node, ['a', 'axis'])
             if kw is None or 'a' not in kw or 'axis' not in kw:
@@ -352,7 +646,7 @@ class Translator:
             if axis is None:
                 return Bad(snippet(node))
             x = self.as_arr(self.expr(kw['a']), kw['a'])
-            return Arr(('expandDims', x.term, axis), None if x.rank is None else x.rank + 1)
+            return Arr(('expandDims', x.term, axis), None if x.rank is None else x.rank + 1, dtype=x.dtype, oid=x.oid)
         if name in ('numpy.broadcast_to', 'np.broadcast_to'):
             kw = self.kwargs(node, ['array', 'shape'])
             if kw is None or 'array' not in kw or 'shape' not in kw:
@@ -361,7 +655,7 @@ class Translator:
             if dims is None or ('infer',) in dims:
                 return Bad(snippet(node))
             x = self.as_arr(self.expr(kw['array']), kw['array'])
-            return Arr(('broadcastTo', x.term, dims), len(dims))
+            return Arr(('broadcastTo', x.term, dims), len(dims), dtype=x.dtype, oid=x.oid)
         if name in ('numpy.transpose', 'np.transpose'):
             kw = self.kwargs(node, ['a', 'axes'])
             if kw is None or 'a' not in kw or 'axes' not in kw or not isinstance(kw['axes'], (ast.List, ast.Tuple)):
@@ -370,7 +664,7 @@ class Translator:
             if any(p is None or p < 0 for p in perm):
                 return Bad(snippet(node))
             x = self.as_arr(self.expr(kw['a']), kw['a'])
-            return Arr(('transpose', x.term, perm), len(perm))
+            return Arr(('transpose', x.term, perm), len(perm), dtype=x.dtype, oid=x.oid)
         if name in ('numpy.concatenate', 'np.concatenate'):
             kw = self.kwargs(node, ['arrays', 'axis'])
             if kw is None or 'arrays' not in kw or not isinstance(kw['arrays'], (ast.List, ast.Tuple)):
@@ -389,7 +683,7 @@ class Translator:
             if dims is None or sum(1 for d in dims if d == ('infer',)) > 1:
                 return Bad(snippet(node))
             x = self.as_arr(self.expr(kw['a']), kw['a'])
-            return Arr(('reshape', x.term, dims), len(dims))
+            return Arr(('reshape', x.term, dims), len(dims), dtype=x.dtype, oid=x.oid)
         if name in ('numpy.meshgrid', 'np.meshgrid'):
             # default indexing='xy': for 1-D x (nx) and y (ny) both results have shape (ny, nx),
             # xx[j, i] = x[i], yy[j, i] = y[j]
@@ -410,6 +704,116 @@ class Translator:
             if not items or not all(isinstance(i, Arr) and i.rank == 1 for i in items):
                 return Bad(snippet(node))
             return Arr(('stack', [i.term for i in items], ('pos', 1)), 2)
+        if name in ('numpy.isnan', 'np.isnan'):
+            if node.keywords or len(node.args) != 1:
+                return Bad(snippet(node))
+            x = self.as_arr(self.expr(node.args[0]), node.args[0])
+            return Arr(('isnan', x.term), x.rank, dtype='bool')
+        if name in ('numpy.pad', 'np.pad'):
+            kw = self.kwargs(node, ['array', 'pad_width', 'mode', 'constant_values'])
+            if kw is None or 'array' not in kw or 'pad_width' not in kw:
+                return Bad(snippet(node))
+            if 'mode' in kw and not (isinstance(kw['mode'], ast.Constant) and kw['mode'].value == 'constant'):
+                return Bad(snippet(node))
+            x = self.as_arr(self.expr(kw['array']), kw['array'])
+            width = self.scal_of(self.expr(kw['pad_width']))
+            if width is not None:
+                # one integer: that many elements before and after every axis
+                fill = self.fill_of(self.expr(kw['constant_values']), x.dtype) if 'constant_values' in kw else ('some', 0)
+                if fill is None or x.dtype is None:
+                    return Bad(snippet(node) + '  -- fill value / element type not understood')
+                return Arr(('padAll', x.term, width.term, fill), x.rank, dtype=x.dtype)
+            widths = self.pad_widths(self.expr(kw['pad_width']), x.rank)
+            fill = self.fill_of(self.expr(kw['constant_values']), x.dtype) if 'constant_values' in kw else ('some', 0)
+            if widths is None or fill is None or x.dtype is None:
+                return Bad(snippet(node) + '  -- pad widths / fill value / element type not understood')
+            return Arr(('pad', x.term, widths, fill), len(widths), dtype=x.dtype)
+        if name in ('numpy.nanmean', 'np.nanmean'):
+            kw = self.kwargs(node, ['a', 'axis'])
+            if kw is None or 'a' not in kw or 'axis' not in kw:
+                return Bad(snippet(node))       # the mean over all axes is not modelled
+            axis = self.axis_of(kw['axis'])
+            if axis is None:
+                return Bad(snippet(node))
+            x = self.as_arr(self.expr(kw['a']), kw['a'])
+            return Arr(('nanmeanAxis', x.term, axis), None if x.rank is None else x.rank - 1, dtype='float')
+        if name in ('numpy.nditer', 'np.nditer'):
+            if node.keywords or len(node.args) != 2 or snippet(node.args[1]) not in ("['multi_index']", "('multi_index',)"):
+                return Bad(snippet(node))
+            x = self.expr(node.args[0])
+            return NdIter(x) if isinstance(x, Arr) else Bad(snippet(node))
+        if name in ('numpy.any', 'np.any'):
+            if node.keywords or len(node.args) != 1:
+                return Bad(snippet(node))
+            v = self.expr(node.args[0])
+            if isinstance(v, Elem) and v.what[0] == 'window':
+                return Elem(v.iv, ('anywin', v.what[1], v.what[2]))
+            return Bad(snippet(node))
+        if name == 'slice':
+            if node.keywords or len(node.args) != 2:
+                return Bad(snippet(node))
+            a, b = (self.expr(x) for x in node.args)
+            if isinstance(a, IndexComp) and isinstance(b, IdxPlus) and b.comp is a:
+                return WindowSlice(a, b.scal)
+            return Bad(snippet(node))
+        if name == 'tuple':
+            if node.keywords or len(node.args) != 1:
+                return Bad(snippet(node))
+            v = self.expr(node.args[0])
+            return v if isinstance(v, WindowTuple) else Bad(snippet(node))
+        if name in ('numpy.fromiter', 'np.fromiter'):
+            kw = self.kwargs(node, ['iter', 'dtype', 'count'])
+            if kw is None or set(kw) != {'iter', 'dtype', 'count'}:
+                return Bad(snippet(node))
+            vs, dt, cnt = self.expr(kw['iter']), self.expr(kw['dtype']), self.expr(kw['count'])
+            if isinstance(vs, ValueStream) and isinstance(cnt, SizeOf) and cnt.arr.oid == vs.arr.oid \
+                    and isinstance(dt, DtypeOf) and dt.arr.oid == vs.arr.oid and vs.arr.dtype == 'bool':
+                whole = Arr(vs.term, vs.arr.rank, dtype='bool')
+                flat = Arr(('reshape', vs.term, [('infer',)]), 1, dtype='bool')
+                flat.unflat = (whole, vs.arr)
+                return flat
+            return Bad(snippet(node))
+        if name == 'itertools.product':
+            # the product of statically known sequences, as a static sequence of tuples
+            if node.keywords:
+                return Bad(snippet(node))
+            seqs = []
+            for a in node.args:
+                if isinstance(a, ast.Starred):
+                    inner = self.static_items(self.expr(a.value))
+                    if inner is None:
+                        return Bad(snippet(node))
+                    seqs.extend(inner)
+                else:
+                    seqs.append(self.expr(a))
+            lists = [self.static_items(q) for q in seqs]
+            if any(q is None for q in lists):
+                return Bad(snippet(node) + '  -- not a product of statically known sequences')
+            import itertools
+            return Tup([Tup(list(c)) for c in itertools.product(*lists)])
+        if name == 'functools.reduce':
+            # reduce(operator.or_ / operator.and_, <static sequence of boolean arrays>)
+            if node.keywords or len(node.args) != 2:
+                return Bad(snippet(node))
+            f = self.expr(node.args[0])
+            ops = {('operator', 'or_'): 'bor', ('operator', 'and_'): 'band'}
+            items = self.static_items(self.expr(node.args[1]))
+            if not isinstance(f, Chain) or f.parts not in ops or not items:
+                return Bad(snippet(node))
+            acc = self.as_arr(items[0], node)
+            for it in items[1:]:
+                acc = self.bool_op(ops[f.parts], acc, self.as_arr(it, node), node)
+                if not isinstance(acc, Arr):
+                    return acc
+            return acc
+        if parts in INLINE_FUNCTIONS:
+            return self.inline(parts, node)
+        if name == 'xarray.Dataset':
+            kw = self.kwargs(node, ['data_vars', 'coords', 'attrs'])
+            if kw is None or 'data_vars' not in kw:
+                return Bad(snippet(node))
+            d = self.expr(kw['data_vars'])
+            return Wrapped('dataset', d) if isinstance(d, Dict) else Bad(snippet(node))
         if name == 'cast' or name == 'typing.cast':
             if node.keywords or len(node.args) != 2:
                 return Bad(snippet(node))
@@ -460,23 +864,58 @@ class Translator:
         self.complaints.append(text + '  -- assert not understood')
         self.asserts.append((('unsupported', text), []))
 
-    def run(self, fn: ast.FunctionDef, kind: str):
-        """straight-line symbolic execution; returns the term of the result"""
-        body = list(fn.body)
-        result = None
+    def assign_masked(self, target: ast.Subscript, value, node) -> bool:
+        """`x[mask] = scalar` for a local `x` and a boolean array `mask`: the local is rebound to the updated value.
+        Sound only when the object is not visible under another name: `x` must be a new object (not an input,
+        not a view of one) that no other local shares."""
+        if not isinstance(target.value, ast.Name) or not isinstance(self.env.get(target.value.id), Arr):
+            return False
+        name = target.value.id
+        x = self.env[name]
+        mask = self.expr(target.slice)
+        if not isinstance(mask, Arr) or mask.dtype != 'bool':
+            return False
+        fill = self.fill_of(value, x.dtype)
+        if fill is None:
+            return False
+        if isinstance(x.oid, str):
+            self.bad(node, f'writes into the input array {x.oid[len("input:"):]} (no copy was taken)')
+            return True
+        if any(k != name and isinstance(v, Arr) and v.oid == x.oid for k, v in self.env.items()):
+            self.bad(node, 'the assigned array is visible under another name')
+            return True
+        self.env[name] = Arr(('whereSet', x.term, mask.term, fill), x.rank, x.dims, dtype=x.dtype, oid=x.oid)
+        return True
+
+    def block(self, body: list, kind: str):
+        """straight-line symbolic execution of a statement list.  Returns ('return', value) when a `return` was
+        reached, ('bad', term) when a statement is outside the fragment, None when the block ran to its end."""
         for st in body:
             if isinstance(st, ast.Expr) and isinstance(st.value, ast.Constant) and isinstance(st.value.value, str):
                 continue                                     # docstring
             if isinstance(st, ast.With) and kind == 'dataarray' and len(st.items) == 1 \
-                    and snippet(st.items[0].context_expr) == 'suppress(KeyError)' and result is None:
+                    and snippet(st.items[0].context_expr) == 'suppress(KeyError)':
                 # `with suppress(KeyError): … return bounds`: the stored-bounds branch; the statements after it
                 # are the derived-bounds branch, which is what is translated
                 self.notes.append('skipped the stored-bounds branch `with suppress(KeyError): …`')
                 continue
+            if isinstance(st, ast.With) and len(st.items) == 1 and st.items[0].optional_vars is None \
+                    and snippet(st.items[0].context_expr) == 'warnings.catch_warnings()':
+                r = self.block(st.body, kind)                # warnings do not change values
+                if r is not None:
+                    return r
+                continue
+            if isinstance(st, ast.Expr) and isinstance(st.value, ast.Call) \
+                    and snippet(st.value.func) in ('warnings.filterwarnings', 'warnings.simplefilter'):
+                continue
             if isinstance(st, ast.Assign) and len(st.targets) == 1:
+                if isinstance(st.targets[0], ast.Subscript):
+                    if self.assign_masked(st.targets[0], self.expr(st.value), st):
+                        continue
+                    return ('bad', self.bad(st, 'assignment through a subscript not understood').term)
                 if self.bind(st.targets[0], self.expr(st.value), st):
                     continue
-                return self.bad(st, 'assignment target not understood').term
+                return ('bad', self.bad(st, 'assignment target not understood').term)
             if isinstance(st, ast.AnnAssign) and st.value is not None and isinstance(st.target, ast.Name):
                 self.env[st.target.id] = self.expr(st.value)
                 continue
@@ -484,11 +923,51 @@ class Translator:
                 self.translate_assert(st)
                 continue
             if isinstance(st, ast.Return) and st.value is not None:
-                result = self.expr(st.value)
-                break
-            return self.bad(st, 'statement outside the straight-line fragment').term
-        if result is None:
+                return ('return', self.expr(st.value))
+            return ('bad', self.bad(st, 'statement outside the straight-line fragment').term)
+        return None
+
+    def inline(self, parts, node):
+        """a call of a module-level helper: bind the arguments to its parameters, run its body, take what it returns"""
+        import importlib
+        module, fn_name = INLINE_FUNCTIONS[parts]
+        if self.depth >= 4:
+            return Bad(snippet(node) + '  -- inlining too deep')
+        try:
+            fn = find_module_function(importlib.import_module(module), fn_name)
+        except Exception as e:
+            return Bad(snippet(node) + f'  -- {type(e).__name__}: {e}')
+        if fn is None:
+            return Bad(snippet(node) + f'  -- no function {fn_name} in the source of {module}')
+        a = fn.args
+        if a.vararg or a.kwarg or a.kwonlyargs or a.posonlyargs or a.defaults:
+            return Bad(snippet(node) + '  -- signature of the inlined function not understood')
+        kw = self.kwargs(node, [p.arg for p in a.args])
+        if kw is None or len(kw) != len(a.args):
+            return Bad(snippet(node))
+        values = {k: self.expr(v) for k, v in kw.items()}
+        saved = self.env
+        self.env = values
+        self.depth += 1
+        try:
+            r = self.block(fn.body, 'array')
+        finally:
+            self.env = saved
+            self.depth -= 1
+        if r is None:
+            return Bad(snippet(node) + f'  -- {fn_name}: no return statement reached')
+        if r[0] == 'bad':
+            return Arr(r[1])
+        return r[1]
+
+    def run(self, fn: ast.FunctionDef, kind: str):
+        """straight-line symbolic execution; returns the term of the result"""
+        r = self.block(list(fn.body), kind)
+        if r is None:
             return self.bad(f'{self.fn_name}: no return statement reached').term
+        if r[0] == 'bad':
+            return r[1]
+        result = r[1]
         if kind == 'polygons':
             if isinstance(result, Wrapped) and result.kind == 'polygons':
                 return self.as_arr(result.inner, fn).term
@@ -497,6 +976,13 @@ class Translator:
             if isinstance(result, Wrapped) and result.kind == 'dataarray':
                 return self.as_arr(result.inner, fn).term
             return self.bad(f'{self.fn_name}: the result is not xarray.DataArray(array, …)').term
+        if kind.startswith('dataset:'):
+            key = kind[len('dataset:'):]
+            if isinstance(result, Wrapped) and result.kind == 'dataset' and key in result.inner.items:
+                v = result.inner.items[key]
+                if isinstance(v, Wrapped) and v.kind == 'dataarray':
+                    return self.as_arr(v.inner, fn).term
+            return self.bad(f'{self.fn_name}: the result is not xarray.Dataset(data_vars={{{key!r}: xarray.DataArray(array, …), …}})').term
         if isinstance(result, Wrapped):
             return self.bad(f'{self.fn_name}: the result is not a plain array').term
         return self.as_arr(result, fn).term
@@ -564,7 +1050,35 @@ def render_term(t, ind: int = 2) -> str:
         return f'(.{k} {sub(t[1])} {sub(t[2])})'
     if k == 'divConst':
         return f'(.divConst {sub(t[1])} {t[2]})'
+    if k == 'pad':
+        return f"(.pad {sub(t[1])} [{', '.join(f'({b}, {a})' for b, a in t[2])}] {r_fill(t[3])})"
+    if k == 'isnan':
+        return f'(.isnan {sub(t[1])})'
+    if k in ('band', 'bor'):
+        return f'(.{k} {sub(t[1])} {sub(t[2])})'
+    if k == 'whereSet':
+        return f'(.whereSet {sub(t[1])} {sub(t[2])} {r_fill(t[3])})'
+    if k == 'padAll':
+        return f'(.padAll {sub(t[1])} {r_scal(t[2])} {r_fill(t[3])})'
+    if k == 'windowAny':
+        return f'(.windowAny {sub(t[1])} {sub(t[2])} {r_scal(t[3])})'
+    if k in ('nanmeanAxis', 'anyAxis'):
+        return f'(.{k} {sub(t[1])} {r_axis(t[2])})'
     raise ValueError(k)
+
+
+def r_scal(t) -> str:
+    if t[0] == 'lit':
+        return f'(.lit {t[1]})'
+    if t[0] == 'sym':
+        return f'(.sym {lean_str(t[1])})'
+    return f'(.{t[0]} {r_scal(t[1])} {r_scal(t[2])})'
+
+
+def r_fill(f) -> str:
+    if f[0] == 'none':
+        return 'none'
+    return f'(some {f[1]})' if f[1] >= 0 else f'(some ({f[1]}))'
 
 
 def find_function(cls, fn_name: str):
@@ -576,6 +1090,15 @@ def find_function(cls, fn_name: str):
             for st in node.body:
                 if isinstance(st, ast.FunctionDef) and st.name == fn_name:
                     return st
+    return None
+
+
+def find_module_function(module, fn_name: str):
+    """the FunctionDef of the module-level function `fn_name` in the source text of `module`"""
+    tree = ast.parse(inspect.getsource(module))
+    for st in tree.body:
+        if isinstance(st, ast.FunctionDef) and st.name == fn_name:
+            return st
     return None
 
 
@@ -598,12 +1121,14 @@ def collect() -> list[dict]:
     import importlib
     ensure_source_tree()
     out = []
-    for lean_name, module, cls_name, fn_name, kind in TARGETS:
-        where = f'{cls_name}.{fn_name}'
-        tr = Translator(where)
+    for lean_name, module, cls_name, fn_name, kind, *opts in TARGETS:
+        where = f'{cls_name}.{fn_name}' if cls_name else fn_name
+        tr = Translator(where, opts[0] if opts else None)
         try:
-            cls = getattr(importlib.import_module(module), cls_name)
-            fn = find_function(cls, fn_name)
+            if cls_name:
+                fn = find_function(getattr(importlib.import_module(module), cls_name), fn_name)
+            else:
+                fn = find_module_function(importlib.import_module(module), fn_name)
             if fn is None:
                 term = tr.bad(f'{where}: no such function in the source of {module}').term
             else:
